@@ -1,8 +1,10 @@
 package rules
 
 import (
+	"fmt"
 	"go/token"
 	"go/types"
+	"os"
 	"strings"
 
 	"golang.org/x/tools/go/ssa"
@@ -306,11 +308,11 @@ func (e *Env) graphRoles() *GraphRoles {
 	for _, c := range cands {
 		for _, b := range c.Blocks {
 			rt, ok := b.Instrs[len(b.Instrs)-1].(*ssa.Return)
-			if !ok || len(rt.Results) != 1 {
+			if !ok || len(rt.Results) == 0 || !ir.IsErrorType(rt.Results[len(rt.Results)-1].Type()) {
 				continue
 			}
 			nonNil := false
-			for _, v := range RetVals(rt, 0) {
+			for _, v := range RetVals(rt, len(rt.Results)-1) {
 				if !ir.IsNilConst(ir.Resolve(v)) {
 					nonNil = true
 				}
@@ -323,11 +325,20 @@ func (e *Env) graphRoles() *GraphRoles {
 					continue
 				}
 				if cc, isC := ir.Resolve(l.V).(*ssa.Call); isC && cc.Call.StaticCallee() != nil && rootFn(cc.Call.StaticCallee()).Package() == sp {
-					g.Setup, g.HasCycle = c, cc.Call.StaticCallee()
+					h := cc.Call.StaticCallee()
+					if h.Signature.Results().Len() != 1 || h.Signature.Results().At(0).Type().String() != "bool" {
+						continue
+					}
+					g.HasCycle = h
+					// a function with the error as its only result is the refusing setup; a
+					// constructor that asks the cycle test itself leaves Setup unset
+					if len(rt.Results) == 1 {
+						g.Setup = c
+					}
 				}
 			}
 		}
-		if g.Setup != nil {
+		if g.HasCycle != nil {
 			break
 		}
 	}
@@ -924,20 +935,40 @@ func (e *Env) expandBoundX(lits []BLit, depth int, done map[*ssa.Call]bool) [][]
 			nd[k] = true
 		}
 		var out [][]BLit
+		// splitOnCall returns the caller's literals that are not about c first, in their
+		// order, then what came from the callee (and caller literals about c it had to keep).
+		// Attribution by position: two literals can be equal as values and still belong to
+		// different calls of the same predicate (`n.is(A) || n.is(B)`).
+		var restOwner, aboutLits []int
+		for i, pl := range plain {
+			var sj ssa.Value
+			switch pl.Kind {
+			case "val":
+				sj = pl.V
+			case "cmp":
+				sj = pl.X
+			}
+			if cc, _, okc := e.helperOfAny(sj); okc && cc == c {
+				aboutLits = append(aboutLits, i)
+			} else {
+				restOwner = append(restOwner, i)
+			}
+		}
 		for _, a := range alts {
 			var bl []BLit
-			for _, x := range a.Lits {
+			for j, x := range a.Lits {
 				// a literal of the caller keeps its own binding; one of the callee gets the new one
 				var b map[ssa.Value]ssa.Value
-				found := false
-				for i, pl := range plain {
-					if pl == x {
-						b, found = owner[i], true
-						break
-					}
-				}
-				if !found {
+				switch {
+				case j < len(restOwner):
+					b = owner[restOwner[j]]
+				default:
 					b = bind
+					for _, i := range aboutLits {
+						if plain[i] == x {
+							b = owner[i]
+						}
+					}
 				}
 				bl = append(bl, BLit{NLit: x, Bind: b})
 			}
@@ -1158,10 +1189,60 @@ func (e *Env) ways(lits []ir.NLit, fn func(lits []ir.NLit)) {
 // can have.
 func (e *Env) restrictWays(lits []ir.NLit, subject func(ssa.Value) bool, names map[int64]string) ir.EnumSet {
 	out := ir.EnumSet{}
-	e.ways(lits, func(alt []ir.NLit) {
-		for v := range ir.Restrict(alt, subject, names) {
+	for _, alt := range e.expandBound(lits) {
+		if os.Getenv("BDDEBUG") != "" {
+			for _, bl := range alt {
+				fmt.Fprintf(os.Stderr, "DBG lit %v bind:", e.RenderN([]ir.NLit{bl.NLit}))
+				for k, v := range bl.Bind {
+					fmt.Fprintf(os.Stderr, " %s->%s", k.Name(), v.String())
+				}
+				fmt.Fprintln(os.Stderr)
+			}
+			fmt.Fprintln(os.Stderr, "DBG --")
+		}
+		// (1) all literals under the merged bindings (a parameter bound differently by
+		// two literals is left unbound), tables resolved for the conjunction as a whole
+		bind := map[ssa.Value]ssa.Value{}
+		conflict := map[ssa.Value]bool{}
+		var plain []ir.NLit
+		for _, bl := range alt {
+			plain = append(plain, bl.NLit)
+			for k, v := range bl.Bind {
+				if old, ok := bind[k]; ok && old != v {
+					conflict[k] = true
+				}
+				bind[k] = v
+			}
+		}
+		for k := range conflict {
+			delete(bind, k)
+		}
+		merged := ir.EnumSet{}
+		undo := ir.SetOverride(bind)
+		for _, t := range e.expandTableLits(plain) {
+			for v := range ir.Restrict(t, subject, names) {
+				merged[v] = true
+			}
+		}
+		undo()
+		// (2) each literal under its own binding: the same predicate called twice with
+		// different arguments (`n.is(Running) || n.is(None)`) restricts the subject twice.
+		// Both sets contain every value the subject can have; so does their intersection.
+		if len(conflict) > 0 {
+			for _, bl := range alt {
+				undo := ir.SetOverride(bl.Bind)
+				one := ir.Restrict([]ir.NLit{bl.NLit}, subject, names)
+				undo()
+				for v := range merged {
+					if !one[v] {
+						delete(merged, v)
+					}
+				}
+			}
+		}
+		for v := range merged {
 			out[v] = true
 		}
-	})
+	}
 	return out
 }
